@@ -34,7 +34,7 @@ LEVEL_TEXT = (
 LEVEL_NOTE = "Trusted: reference validator, flat tokens; subsequence decided by dynamic programming; 5 s (20 s retry) time budget for termination."
 TECHNIQUE = "property-based testing (Hypothesis) with totality, reference validity and leaf-sequence preservation oracles"
 BUDGET = {
-    "quick": {"shards": 8, "examples": 900},
+    "quick": {"shards": 8, "examples": 1500, "wall_s": 300},
     "thorough": {"shards": 16, "examples": 25000},
 }
 
@@ -53,7 +53,7 @@ def generate(R: Draw, tier: str) -> dict:
             grp = "V"
     lib, rs = schemas.get(sref)
     g = docgen(rs)
-    if R.bool(0.025):
+    if R.bool(0.012):
         # dense case: EVERY slice (with and without include_parents) of a small source document is pasted at
         # EVERY position of a small target document
         return {"schema": sref, "group": grp, "dense": True, "doc": g.doc(R, "tiny"), "src": g.doc(R, R.choice(["tiny", "small"]))}
